@@ -5,6 +5,7 @@
 From Coq Require Import ZArith List.
 From Coq Require Extraction ExtrOcamlBasic.
 From Chess3 Require Export Model.TimeCtl.
+From Chess3 Require Export Model.TimeArm Spec.TimeArmJudge.  (* C14, arming of the deadline under virtual time *)
 From Chess3 Require Export Model.BoardDef.
 From Chess3 Require Export Model.BoardStreams.
 From Chess3 Require Export Spec.ChessJudge.
